@@ -70,6 +70,9 @@ pub struct Shape {
     /// and the lookup input is q * x + (1 - q) so that inactive rows look up the default
     #[serde(default)]
     pub tbl_nozero: bool,
+    /// the circuit consists of one region that fills every usable row and enables a gate on the last one
+    #[serde(default)]
+    pub fill_last: bool,
     /// the "fx" operations write their fixed cell twice: a non-zero value first, then the final one (zero for the
     /// operations at even positions)
     #[serde(default)]
@@ -143,12 +146,15 @@ pub enum Op {
     Copy { x: u64 },
     CopyInst { j: usize, row: usize },
     CopyConst { c: u64 },
+    /// one region as tall as the usable rows, with the mul gate enabled (and satisfied) on its first and on its LAST row
+    Tall { rows: usize, x: u64, y: u64 },
 }
 
 impl Op {
     pub fn rows(&self, sh: &Shape) -> usize {
         match self {
             Op::InstRows => sh.inst_lens.iter().take(sh.inst_used()).copied().max().unwrap_or(0),
+            Op::Tall { rows, .. } => *rows,
             Op::Mul { .. } => 1 + sh.rot_mul as usize,
             Op::Pow { .. } => 1 + (-sh.rot_pow) as usize,
             Op::Extra { .. } => 3,
@@ -208,6 +214,10 @@ impl ShapeCircuit {
         let usable = n - (cs.blinding_factors() + 1);
         let mut ops = vec![];
         let mut rows = 0usize;
+        if sh.fill_last {
+            let (x, y) = (rng.gen_range(1..40u64), rng.gen_range(1..40u64));
+            return ShapeCircuit { shape: sh, ops: vec![Op::Tall { rows: usable, x, y }], instance, witness: true, fault: None };
+        }
         if sh.inst_used() > 0 {
             ops.push(Op::InstRows);
             rows += Op::InstRows.rows(&sh);
@@ -335,6 +345,7 @@ impl ShapeCircuit {
                 .take(self.shape.inst_used())
                 .map(|c| c.len())
                 .sum(),
+            Op::Tall { .. } => 6,
             Op::Mul { .. } => 3,
             Op::Pow { .. } => 2,
             Op::Extra { .. } => 2,
@@ -655,6 +666,15 @@ impl Circuit<F> for ShapeCircuit {
                                 }
                             }
                         }
+                        Op::Tall { rows, x, y } => {
+                            let (xf, yf) = (F::from(*x), F::from(*y));
+                            for (slot, row) in [(0usize, 0usize), (3, *rows - 1)] {
+                                cfg.s_mul.enable(&mut r, row)?;
+                                r.assign_advice(|| "x", cfg.a[0], row, || self.val(oi, slot, xf))?;
+                                r.assign_advice(|| "y", cfg.a[1], row, || self.val(oi, slot + 1, yf))?;
+                                r.assign_advice(|| "z", cfg.a[2], row, || self.val(oi, slot + 2, xf * yf))?;
+                            }
+                        }
                         Op::Mul { x, y } => {
                             cfg.s_mul.enable(&mut r, 0)?;
                             let (x, y) = (F::from(*x), F::from(*y));
@@ -798,6 +818,7 @@ pub fn random_shape(seed: u64) -> Shape {
         lookup_any: rng.gen_range(0..=1),
         tbl_nozero: rng.gen_range(0..3) == 0,
         fx_overwrite: rng.gen_range(0..3) == 0,
+        fill_last: false,
         trash: rng.gen_range(0..=2),
         perm: rng.gen_range(0..=3),
         seed,
